@@ -527,6 +527,40 @@ func driveCalc(c *DriverCtx) error {
 	return nil
 }
 
+// The same buffer object reused for different contents of the same length and the same first and
+// last bytes (C14: the result is a function of the bytes, not of where they live).
+func driveCalcReuse(c *DriverCtx) error {
+	r := c.G.R
+	for i := 0; i < 60*c.N; i++ {
+		n := []int{16, 63, 64, 65, 100, 256, 300, 1000}[i%8]
+		x := c.junk(n)
+		y := append([]int{}, x...)
+		y[n/2] ^= 0x5a
+		if n > 40 {
+			y[20+r.Intn(n-40)] ^= 0x01
+		}
+		ops := []Op{{Op: "write", B: "b", Bytes: x}}
+		for _, a := range algs {
+			ops = append(ops, Op{Op: "calc", B: "b", Alg: a})
+		}
+		ops = append(ops, Op{Op: "reset", B: "b"}, Op{Op: "write", B: "b", Bytes: y})
+		for _, a := range algs {
+			ops = append(ops, Op{Op: "calc", B: "b", Alg: a, Tag: "same-buffer-new-content"})
+		}
+		// and patched in place
+		ops = append(ops, Op{Op: "poke", B: "b", K: n / 3, Bytes: []int{(y[n/3] + 1) % 256}})
+		for _, a := range algs {
+			ops = append(ops, Op{Op: "calc", B: "b", Alg: a, Tag: "patched-in-place"})
+		}
+		if err := c.Run(ops); err != nil {
+			return err
+		}
+	}
+	return nil
+}
+
+func init() { Drivers["calc-reuse"] = driveCalcReuse }
+
 func driveCalcExhaustive2(c *DriverCtx) error {
 	// all strings of exactly 2 bytes (65,536) - with driveCalc's 0- and 1-byte strings this is every string of <= 2 bytes
 	for x := 0; x < 256; x++ {
@@ -585,3 +619,51 @@ func driveCalcGiant(c *DriverCtx) error {
 	}
 	return nil
 }
+
+// Truncations at primitive level (C11): what a writer produced, cut at every position, given to
+// the matching reader - which must return an error.
+func drivePrimCut(c *DriverCtx) error {
+	r := c.G.R
+	type wr struct {
+		wfn, rfn string
+		args     map[string]any
+	}
+	for rep := 0; rep < c.N; rep++ {
+		for _, pw := range []int{1, 2, 4, 8} {
+			for _, le := range []bool{false, true} {
+				n := 1 + r.Intn(6)
+				cases := []wr{
+					{"WriteString", "ReadString", map[string]any{"s": c.junk(1 + r.Intn(12))}},
+					{"WriteBasicTypeList", "ReadBasicTypeList", map[string]any{"ek": "i32", "vals": anyList([][]int{c.junk(4), c.junk(4), c.junk(4)})}},
+					{"WriteBasicTypeList", "ReadBasicTypeList", map[string]any{"ek": "u8", "vals": anyList([][]int{c.junk(1), c.junk(1)})}},
+					{"WriteFixedStringList", "ReadFixedStringList", map[string]any{"n": n, "vals": anyList([][]int{c.junk(n), c.junk(1)})}},
+					{"WriteFixedStringListWithPadding", "ReadFixedStringListTrimPadding", map[string]any{"n": n, "pad": 0x30, "left": true, "vals": anyList([][]int{c.junk(n)})}},
+					{"WriteStringList", "ReadStringList", map[string]any{"pw2": []int{1, 2, 4, 8}[r.Intn(4)], "vals": anyList([][]int{c.junk(3), {}, c.junk(5)})}},
+					{"WriteFixedStringWithPadding", "ReadFixedStringTrimPadding", map[string]any{"n": n + 1, "pad": 0x20, "left": false, "s": c.junk(n)}},
+					{"WriteBasicType", "ReadBasicType", map[string]any{"ek": "u64", "v": c.junk(8)}},
+				}
+				for _, cs := range cases {
+					cs.args["pw"], cs.args["le"] = pw, le
+					m := NewMachine()
+					ev, err := m.Exec(Op{Op: "prim", B: "b", Fn: cs.wfn, Args: cs.args})
+					if err != nil {
+						return err
+					}
+					w := ev.Post
+					ops := []Op{}
+					for k := 0; k < len(w); k++ {
+						b := fmt.Sprintf("c%d", k)
+						ops = append(ops, Op{Op: "load", B: b, Bytes: w[:k]}, Op{Op: "prim", B: b, Fn: cs.rfn, Args: cs.args, Tag: "truncated"})
+					}
+					ops = append(ops, Op{Op: "load", B: "full", Bytes: w}, Op{Op: "prim", B: "full", Fn: cs.rfn, Args: cs.args, Tag: "complete"})
+					if err := c.Run(ops); err != nil {
+						return err
+					}
+				}
+			}
+		}
+	}
+	return nil
+}
+
+func init() { Drivers["prim-cut"] = drivePrimCut }
